@@ -1,7 +1,12 @@
 //!
 //! IPP value
 //!
+#[cfg(not(kani))]
 use std::{collections::BTreeMap, convert::Infallible, fmt, io, str::FromStr};
+#[cfg(kani)]
+use std::{convert::Infallible, fmt, io, str::FromStr};
+#[cfg(kani)]
+use crate::verif_shim::BTreeMap;
 
 use bytes::{Buf, BufMut, Bytes, BytesMut};
 use enum_as_inner::EnumAsInner;
